@@ -313,11 +313,13 @@ def run(c):
     c.assumptions += [
         "JANUS theorem: the force is a function of the grid positions only (no velocity-dependent or time-dependent additional forces), particles are not modified between steps (recalculate_integer_coordinates_this_timestep stays 0), every double->int64 conversion is in range; both hypotheses are validated on the real code on every run: a probe installed as additional_forces callback checks at every force evaluation (every stage) that the position of every particle, including i >= N_active, is exactly to_double(p_int), and the flag / N_allocated are read after every step; every assignment to the flag in src/ and the Python package is extracted and a theorem states that only part1 sets it non-zero",
         "LEAPFROG/SEI/splitting theorems are exact-arithmetic (any field): the size of the rounding error of the round trip is only measured by the search",
-        "WHFast/SABA/EOS are covered by the abstract palindromic-splitting theorem plus the search, not by a model of their Kepler solver (C03/C09 own those models)",
+        "WHFast/SABA/EOS are covered by the abstract palindromic-splitting theorems plus the search, not by a model of their Kepler solver (C03/C09 own those models); the hypothesis kepler(-tau) o kepler(tau) = id of those theorems is validated on the real reb_whfast_kepler_solver directly (inverse and time-mirror probes over elliptic/hyperbolic x sign x step size, solver branch recorded)",
     ]
     c.cov["rule"] = ("configuration sweep (tie and search): N_active<N with massive and massless test particles, testparticle_type 0/1, softening, read-only "
                      "pre_/post_timestep_modifications and additional_forces callbacks (ctypes), a velocity-independent additional force a += -k x, for the search also compensated "
                      "gravity, synchronize/energy/angular_momentum calls between steps and integrate() with a heartbeat; "
+                     "Kepler primitive: conics with e 0..0.999 and 1.001..3, q 0.05..2, steps 1e-3..3 periods resp. 0.01..40 pericentre passage times, both signs; "
+                     "fly-by families: star + 1..3 planets + close hyperbolic fly-by (q 0.05..0.5, e 1.05..2) or massless eccentric body with long steps, WHFast x4 x safe_mode 0/1, SABA, MERCURIUS; "
                      "correspondence: random N-body systems (planetary with masses 1e-8..3e-2, e<0.4, frame offsets; clouds of comparable masses), N 2..8, "
                      "all 5 JANUS orders, scale_pos/scale_vel from {1e-16..1e-7, 2^-40} independently, dt>0 and dt<0 segments, state compared after every step; "
                      "LEAPFROG and SEI (shearing-sheet particles, OMEGA/OMEGAZ/G varied) likewise after every step; "
@@ -332,6 +334,8 @@ def run(c):
     corr_laws(c, exe)
     search_janus(c, R)
     search_symmetric(c, R)
+    probe_kepler(c, R)
+    search_flyby(c, R)
 
 
 # ----------------------------------------------------------------------------- correspondence
@@ -821,6 +825,261 @@ def search_janus(c, R):
         c.corr_break("ri_janus.recalculate_integer_coordinates_this_timestep / N_allocated not clear at %d step boundaries of undisturbed search runs" % flag_bad)
 
 
+# ----------------------------------------------------------------------------- Kepler primitive
+INVF = [1.0 / math.factorial(i) for i in range(35)]
+
+
+def _cs3(z):
+    n = 0
+    while abs(z) > 0.1 and math.isfinite(z):
+        z /= 4.
+        n += 1
+    co, ce = INVF[13], INVF[12]
+    for k in range(11, 2, -2):
+        co = INVF[k] - z * co
+        ce = INVF[k - 1] - z * ce
+    c3, c2, c1, c0 = co, ce, INVF[1] - z * co, INVF[0] - z * ce
+    for _ in range(n):
+        c3 = (c2 + c0 * c3) * 0.25
+        c2 = c1 * c1 * 0.5
+        c1 = c0 * c1
+        c0 = 2. * c0 * c0 - 1.
+    return [c0, c1, c2, c3]
+
+
+def _Gs3(beta, X):
+    g = _cs3(beta * X * X)
+    g[1] *= X
+    g[2] *= X * X
+    g[3] *= X * X * X
+    return g
+
+
+def kepler_branch(M, p, dt):
+    """which way `reb_whfast_kepler_solver` goes for this input (a Python re-run of its control flow only,
+    used for the coverage record, not as an oracle): (ell|hyp, +|-, newton|quartic|bisect)"""
+    x, y, z, vx, vy, vz = p
+    r0 = math.sqrt(x * x + y * y + z * z)
+    r0i = 1. / r0
+    beta = 2. * M * r0i - (vx * vx + vy * vy + vz * vz)
+    eta0 = x * vx + y * vy + z * vz
+    zeta0 = M - beta * r0
+    Xpp = float("nan")
+    if beta > 0:
+        Xpp = 2 * math.pi / math.sqrt(beta)
+        dtr0i = dt * r0i
+        X = dtr0i * (1. - dtr0i * eta0 * 0.5 * r0i)
+    else:
+        X = 0.
+    oldX = X
+    G = _Gs3(beta, X)
+    e12 = eta0 * G[1] + zeta0 * G[2]
+    X = (X * e12 - eta0 * G[2] - zeta0 * G[3] + dt) / (r0 + e12)
+    conv = False
+    if abs(X - oldX) > 0.01 * Xpp:
+        kind = "quartic"
+        X = beta * dt / M
+        prev = {}
+        n = 1
+        while n < 64:
+            G = _Gs3(beta, X)
+            f = r0 * X + eta0 * G[2] + zeta0 * G[3] - dt
+            fp = r0 + eta0 * G[1] + zeta0 * G[2]
+            fpp = eta0 * G[0] + zeta0 * G[1]
+            den = fp + math.sqrt(abs(16. * fp * fp - 20. * f * fpp))
+            X = (X * den - 5. * f) / den
+            if any(X == prev.get(i) for i in range(1, n)):
+                conv = True
+                break
+            prev[n] = X
+            n += 1
+    else:
+        kind = "newton"
+        for n in range(1, 32):
+            oldX2, oldX = oldX, X
+            G = _Gs3(beta, X)
+            e12 = eta0 * G[1] + zeta0 * G[2]
+            X = (X * e12 - eta0 * G[2] - zeta0 * G[3] + dt) / (r0 + e12)
+            if X == oldX or X == oldX2:
+                conv = True
+                break
+    return ("ell" if beta > 0 else "hyp", "+" if dt > 0 else "-", kind if conv else "bisect")
+
+
+def orbit_state(rng, M, q, e, f):
+    """Cartesian state of a conic (pericentre q, eccentricity e, true anomaly f) in a random orientation"""
+    pp = q * (1 + e)
+    r = pp / (1 + e * math.cos(f))
+    sq = math.sqrt(M / pp)
+    a, b, g = [rng.uniform(0, 2 * math.pi) for _ in range(3)]
+
+    def rot(v):
+        x, y, z = v
+        x, y = x * math.cos(a) - y * math.sin(a), x * math.sin(a) + y * math.cos(a)
+        y, z = y * math.cos(b) - z * math.sin(b), y * math.sin(b) + z * math.cos(b)
+        x, y = x * math.cos(g) - y * math.sin(g), x * math.sin(g) + y * math.cos(g)
+        return [x, y, z]
+    return rot([r * math.cos(f), r * math.sin(f), 0.]) + rot([-sq * math.sin(f), sq * (e + math.cos(f)), 0.])
+
+
+def probe_kepler(c, R):
+    """the hypothesis `kepler(-τ) ∘ kepler(τ) = id` of the splitting theorems, on the real primitive
+    `reb_whfast_kepler_solver` (called directly through ctypes), over elliptic/hyperbolic × sign of τ ×
+    step size (down to |τ| << pericentre passage time, up to 3 periods / 40 passage times) so that the
+    Newton, quartic and bisection branches are reached in both directions:
+      inverse  K(-τ)(K(τ) s) = s            to 1e-8 × (1+|τ|/t_peri)   (conditioning of the flow)
+      mirror   K(-τ)(x,v) = flip K(τ)(x,-v)  to 1e-12 × (1+|τ|/t_peri)  (bitwise on the unchanged tree)"""
+    rng = c.rng.fork()
+    clib = R.rb.clibrebound
+    P = R.rb.Particle
+    sim = R.rb.Simulation()
+    sim.ri_whfast.timestep_warning = 1        # the "step larger than a period" warning is not under test
+
+    def kep(M, p, dt):
+        a = (P * 1)()
+        for k, v in zip(COMP, p):
+            setattr(a[0], k, v)
+        clib.reb_whfast_kepler_solver(ctypes.byref(sim), a, ctypes.c_double(M), ctypes.c_uint(0), ctypes.c_double(dt))
+        return [getattr(a[0], k) for k in COMP]
+
+    def err(a, b, cc):
+        sp = max(math.dist(a[:3], [0] * 3), math.dist(b[:3], [0] * 3))
+        sv = max(math.dist(a[3:], [0] * 3), math.dist(b[3:], [0] * 3))
+        e = max(math.dist(a[:3], cc[:3]) / sp, math.dist(a[3:], cc[3:]) / sv)
+        return e if e == e else float("inf")
+    n = 12000 if c.thorough else 2500
+    hits = {"%s %s %s" % (t, sg, b): 0 for t in ("ell", "hyp") for sg in "+-" for b in (("newton", "quartic", "bisect") if t == "ell" else ("newton", "bisect"))}
+    worst_inv, worst_mir, nbit = 0.0, 0.0, 0
+    nviol = 0
+    for it in range(n):
+        M = rng.loguniform(0.1, 10)
+        q = rng.loguniform(0.05, 2)
+        if it % 2 == 0:
+            e = rng.choice([rng.uniform(0, 0.3), rng.uniform(0.3, 0.9), rng.uniform(0.9, 0.999)])
+            f = rng.uniform(-math.pi, math.pi)
+            per = 2 * math.pi * math.sqrt((q / (1 - e)) ** 3 / M)
+            dt = per * rng.choice([rng.loguniform(1e-3, 0.05), rng.uniform(0.05, 0.5), rng.uniform(0.5, 3)])
+        else:
+            e = rng.choice([rng.uniform(1.001, 1.1), rng.uniform(1.1, 1.5), rng.uniform(1.5, 3)])
+            f = rng.uniform(-0.9, 0.9) * math.acos(-1 / e)
+            dt = None
+        tp = math.sqrt(q ** 3 / (M * (1 + e)))          # pericentre passage time q / v_q
+        if dt is None:
+            dt = tp * rng.choice([rng.loguniform(0.01, 0.3), rng.uniform(0.3, 5), rng.uniform(5, 40)])
+        if rng.chance(0.5):
+            dt = -dt
+        p = orbit_state(rng, M, q, e, f)
+        y = kep(M, p, dt)
+        z = kep(M, y, -dt)
+        m1 = kep(M, p, -dt)
+        m2 = kep(M, p[:3] + [-v for v in p[3:]], dt)
+        m2 = m2[:3] + [-v for v in m2[3:]]
+        cond = 1 + abs(dt) / tp
+        b1, b2, b3 = kepler_branch(M, p, dt), kepler_branch(M, y, -dt), kepler_branch(M, p, -dt)
+        for b in (b1, b2, b3):
+            hits["%s %s %s" % b] = hits.get("%s %s %s" % b, 0) + 1
+        c.count(("kepler",) + b1 + b2[1:], nontrivial=True)
+        e1, e2 = err(p, y, z), err(m1, m1, m2)
+        worst_inv, worst_mir = max(worst_inv, e1 / cond), max(worst_mir, e2 / cond)
+        nbit += [d2h(v) for v in m1] == [d2h(v) for v in m2]
+        rep = dict(integrator="kepler-primitive", M=M, state=p, dt=dt, nsteps=1, particles=[], q=q, e=e, branches=[b1, b2, b3],
+                   procedure="reb_whfast_kepler_solver(r, p, M, 0, dt) then (.., -dt); and K(-dt)(x,v) against the velocity-flipped K(dt)(x,-v)")
+        if not e1 <= 1e-8 * cond and nviol < 3:
+            nviol += 1
+            c.violation("kepler-inverse-%s%s" % (b1[0], b1[1]),
+                        "reb_whfast_kepler_solver: kepler(-dt) does not undo kepler(dt) (%s, dt %+.3g = %.3g passage times, branches %s then %s): error %.2e"
+                        % ("hyperbolic e=%.3f" % e if e > 1 else "elliptic e=%.3f" % e, dt, abs(dt) / tp, b1[2], b2[2], e1), dict(rep, error=e1))
+        elif not e2 <= 1e-12 * cond and nviol < 3:
+            nviol += 1
+            c.violation("kepler-mirror-%s%s" % (b3[0], b3[1]),
+                        "reb_whfast_kepler_solver: kepler(-dt)(x,v) is not the time reverse of kepler(dt)(x,-v) (%s, dt %+.3g, branch %s): error %.2e"
+                        % ("hyperbolic e=%.3f" % e if e > 1 else "elliptic e=%.3f" % e, dt, b3[2], e2), dict(rep, error=e2))
+    c.cov["kepler_primitive_solves_by(orbit,sign of dt,solver branch)"] = hits
+    c.cov["kepler_primitive_not_covered"] = sorted(k for k, v in hits.items() if v == 0)
+    c.cov["kepler_primitive_worst_inverse_error_over_conditioning"] = float("%.3g" % worst_inv)
+    c.cov["kepler_primitive_worst_mirror_error_over_conditioning"] = float("%.3g" % worst_mir)
+    c.cov["kepler_primitive_mirror_bitwise"] = "%d of %d" % (nbit, n)
+
+
+def gen_flyby(rng, kind, light=False):
+    """star + 1..3 well separated planets + one body that exercises the Kepler solver away from the
+    easy regime: kind 'hyp' = close hyperbolic fly-by (q 0.05..0.5, e 1.05..2, starts inbound, passes
+    pericentre during the run), kind 'ecc' = massless eccentric bound orbit (e 0.6..0.9, q 0.1..0.4) stepped with
+    3..20 % of its period for 8..25 steps"""
+    parts = [[1.0, 0.0, 0.0, 0.0, 0.0, 0.0, 0.0]]
+    a = rng.uniform(0.8, 1.2)
+    for i in range(rng.randint(1, 3)):
+        m = rng.loguniform(1e-7, 1e-4) if light else rng.loguniform(1e-6, 1e-3)
+        ph = rng.uniform(0, 2 * math.pi)
+        v = math.sqrt((1 + m) / a)
+        parts.append([m, a * math.cos(ph), a * math.sin(ph), 0.0, -v * math.sin(ph), v * math.cos(ph), 0.0])
+        a *= rng.uniform(1.6, 2.2)
+    if kind == "hyp":
+        e, q = rng.uniform(1.05, 2.0), rng.loguniform(0.05, 0.5)
+        f = -rng.uniform(0.6, 0.9) * math.acos(-1 / e)
+        dt = 2 * math.pi * rng.uniform(0.02, 0.08)
+        nst = rng.randint(30, 80)
+    else:
+        e, q = rng.uniform(0.6, 0.9), rng.loguniform(0.1, 0.4)
+        f = rng.uniform(-math.pi, math.pi)
+        dt = 2 * math.pi * (q / (1 - e)) ** 1.5 * rng.uniform(0.03, 0.2)
+        nst = rng.randint(8, 25)
+    parts.append([(0.0 if kind == "ecc" else rng.choice([0.0, 1e-9, 1e-6]))] + orbit_state(rng, 1.0, q, e, f))
+    return parts, dt * (1 if rng.chance(0.5) else -1), nst, dict(q=q, e=e)
+
+
+def search_flyby(c, R):
+    """whole-integrator round trips whose Kepler drifts are not the easy ones: unbound fly-bys and eccentric
+    bound bodies with long steps; WHFast ×4 coordinates × safe_mode 0/1, uncorrected SABA, MERCURIUS (fly-by only).
+    Bounds (clean-tree calibration over 600 systems each): fly-by ≤ 4e-13 → 3e-10; MERCURIUS fly-by ≤ 2.2e-8
+    (switching function near planets) → 1e-6; massless eccentric body with long steps: median 2e-13, 99.9 % ≤ 5e-8,
+    max 6.6e-6 over 3900 runs (ill-conditioned: a coarse net only, the sharp instrument is probe_kepler) → 1e-3."""
+    rng = c.rng.fork()
+    reps = 10 if c.thorough else 3
+    variants = [("whfast", k, sm) for k in WH_COORDS for sm in (1, 0)] + [("saba", t) for t in ("1", "2", "4", "10,6,4", "h8,6,4")] + [("mercurius",)]
+    worst = {}
+    solves = {"hyperbolic body, dt>0 leg": 0, "hyperbolic body, dt<0 leg": 0, "eccentric body, dt>0 leg": 0, "eccentric body, dt<0 leg": 0}
+    for rep in range(reps):
+        for variant in variants:
+            for kind in ("hyp", "ecc"):
+                if variant[0] == "mercurius" and kind == "ecc":
+                    continue
+                parts, dt, nst, info = gen_flyby(rng, kind, light=(variant[0] == "mercurius"))
+                n = len(parts)
+                s = R.sim(1.0, parts, "leapfrog")
+                if variant[0] == "mercurius":
+                    s.integrator = "mercurius"
+                else:
+                    configure(s, variant[:2])
+                    if variant[0] == "whfast":
+                        s.ri_whfast.safe_mode = variant[2]
+                s.move_to_com()
+                d0 = R.doubles(s)
+                s.dt = dt
+                s.steps(nst)
+                d1 = R.doubles(s)
+                s.synchronize()
+                s.dt = -s.dt
+                s.steps(nst)
+                s.synchronize()
+                e = relerr(d0, R.doubles(s), n)
+                name = "-".join(str(v) for v in variant) + ":" + kind
+                worst[name] = max(worst.get(name, 0.0), e)
+                lab = "hyperbolic body" if kind == "hyp" else "eccentric body"
+                solves[lab + (", dt>0 leg" if dt > 0 else ", dt<0 leg")] += nst
+                solves[lab + (", dt<0 leg" if dt > 0 else ", dt>0 leg")] += nst
+                c.count((name, n, dt > 0), nontrivial=relerr(d0, d1, n) > 1e-3)
+                tol = 1e-3 if kind == "ecc" else (1e-6 if variant[0] == "mercurius" else tol_for(nst))
+                if not e <= tol:
+                    c.violation("%s-roundtrip-%s" % ("-".join(str(v) for v in variant[:2]), "flyby" if kind == "hyp" else "eccentric"),
+                                "%s with %s (q=%.3f e=%.3f): %d steps forward and back return to the start only to %.2e (bound %.0e)"
+                                % ("-".join(str(v) for v in variant), "a hyperbolic fly-by" if kind == "hyp" else "an eccentric body and long steps", info["q"], info["e"], nst, e, tol),
+                                dict(integrator=variant[0], variant=list(variant), G=1.0, dt=dt, nsteps=nst, particles=parts, error=e, bound=tol,
+                                     procedure="add particles; configure (safe_mode as given); move_to_com; nsteps; synchronize; sim.dt=-sim.dt; nsteps; synchronize"))
+    c.cov["flyby_worst_roundtrip_error"] = {k: float("%.3g" % v) for k, v in sorted(worst.items())}
+    c.cov["flyby_kepler_steps_by(orbit type, direction)"] = solves
+
+
 def relerr(a, b, n):
     """max over particles of |Δpos|/max|pos| and |Δvel|/max|vel|"""
     sp = max(abs(a[6 * i + k]) for i in range(n) for k in range(3)) or 1.0
@@ -903,6 +1162,8 @@ def search_symmetric(c, R):
     variants = [("leapfrog",)] + [("whfast", k) for k in WH_COORDS] + [("saba", t) for t in SABA_UNCORRECTED]
     for a in EOS_UNPROCESSED:
         variants.append(("eos", a, "lf", 2))
+    for b in EOS_UNPROCESSED[1:]:
+        variants.append(("eos", "lf", b, 2))          # every splitting also as the inner one (phi1)
     variants += [("eos", "lf4", "lf4", 1), ("eos", "lf", "lf8_6_4", 3), ("eos", "lf8", "lf6", 2), ("eos", "lf4_2", "lf4_2", 1)]
     reps = 8 if c.thorough else 4
     nmax = 10000 if c.thorough else 1000
@@ -993,6 +1254,26 @@ def replay(path):
     rp = json.load(open(path))["replay"]
     d = build()
     R = Real(use_scratch_rebound(d))
+    if rp["integrator"] == "kepler-primitive":
+        clib, P = R.rb.clibrebound, R.rb.Particle
+        sim = R.rb.Simulation()
+
+        def kep(p, dt):
+            a = (P * 1)()
+            for k, v in zip(COMP, p):
+                setattr(a[0], k, v)
+            clib.reb_whfast_kepler_solver(ctypes.byref(sim), a, ctypes.c_double(rp["M"]), ctypes.c_uint(0), ctypes.c_double(dt))
+            return [getattr(a[0], k) for k in COMP]
+        p, dt = rp["state"], rp["dt"]
+        z = kep(kep(p, dt), -dt)
+        m1, m2 = kep(p, -dt), kep(p[:3] + [-v for v in p[3:]], dt)
+        e1 = max(abs(a - b) for a, b in zip(p, z)) / max(abs(v) for v in p)
+        e2 = max(abs(a - b) for a, b in zip(m1, m2[:3] + [-v for v in m2[3:]])) / max(abs(v) for v in m1)
+        print("kepler(-dt) o kepler(dt): error %.3e; mirror symmetry: error %.3e" % (e1, e2))
+        ok = e1 <= rp.get("error", 1) / 100 or (e1 < 1e-6 and e2 < 1e-9)
+        print("replay:", "property holds on this input" if ok else "STILL FAILING")
+        sys.stdout.flush()
+        os._exit(0 if ok else 1)
     parts, dt, nst = rp["particles"], rp["dt"], rp["nsteps"]
     G = rp.get("fc") or mkfc(rp.get("G", 1.0))        # the whole force / callback configuration
     G["cb"] = tuple(G["cb"])
@@ -1011,6 +1292,26 @@ def replay(path):
         e = relerr(d0, R.doubles(s), len(parts))
         ok = e <= tol_for(nst)
         print("SEI %d steps there and back: error %.3e (bound %.1e)" % (nst, e, tol_for(nst)))
+    elif "bound" in rp:
+        variant = tuple(rp["variant"])
+        s = R.sim(1.0, parts, "leapfrog")
+        if variant[0] == "mercurius":
+            s.integrator = "mercurius"
+        else:
+            configure(s, variant[:2])
+            if variant[0] == "whfast":
+                s.ri_whfast.safe_mode = variant[2]
+        s.move_to_com()
+        d0 = R.doubles(s)
+        s.dt = dt
+        s.steps(nst)
+        s.synchronize()
+        s.dt = -s.dt
+        s.steps(nst)
+        s.synchronize()
+        e = relerr(d0, R.doubles(s), len(parts))
+        ok = e <= rp["bound"]
+        print("%s %d steps there and back: error %.3e (bound %.1e)" % ("-".join(map(str, variant)), nst, e, rp["bound"]))
     else:
         variant = tuple(rp["variant"])
         es = [relerr(*[roundtrip(R, G, parts, variant, dt / k, k * nst)[i] for i in (0, 2)], len(parts)) for k in (1, 2, 4)]
